@@ -119,21 +119,32 @@ Definition parse_rfc3339 (s : bytes) : option (option vtime) :=
   | _ => None
   end.
 
-(* xsd.Unmarshal on [-]PT[nH][nM][nS] with integer parts (what the writer produces below 24h) *)
-Fixpoint xsd_parts (fuel : nat) (s : bytes) (acc : Z) : option Z :=
+(* xsd.Unmarshal on [-]P[nY][nM][nD][T[nH][nM][nS]] with integer parts: a year counts 356 days, a month 30 days
+   (the constants of go-xsd-duration); anything else is outside the model *)
+Fixpoint xsd_parts (fuel : nat) (is_time : bool) (s : bytes) (acc : Z) : option Z :=
   match fuel with
   | O => None
   | S f =>
       match s with
       | [] => Some acc
-      | _ =>
+      | t :: r0 =>
+          if negb is_time && Byte.eqb t x54 then
+            match r0 with [] => None | _ => xsd_parts f true r0 acc end
+          else
           let ds := (fix take (l : bytes) : bytes := match l with b :: r => if is_digit b then b :: take r else [] | [] => [] end) s in
           match parse_nat ds, skipn (length ds) s with
           | Some n, u :: r =>
-              if Byte.eqb u x48 then xsd_parts f r (acc + n * 3600)
-              else if Byte.eqb u x4d then xsd_parts f r (acc + n * 60)
-              else if Byte.eqb u x53 then xsd_parts f r (acc + n)
-              else None
+              if Nat.ltb 9 (length ds) then None      (* strconv.ParseInt(.., 10, 32) *)
+              else if is_time then
+                if Byte.eqb u x48 then xsd_parts f true r (acc + n * 3600)
+                else if Byte.eqb u x4d then xsd_parts f true r (acc + n * 60)
+                else if Byte.eqb u x53 then xsd_parts f true r (acc + n)
+                else None
+              else
+                if Byte.eqb u x59 then xsd_parts f false r (acc + n * 356 * 86400)
+                else if Byte.eqb u x4d then xsd_parts f false r (acc + n * 30 * 86400)
+                else if Byte.eqb u x44 then xsd_parts f false r (acc + n * 86400)
+                else None
           | _, _ => None
           end
       end
@@ -144,11 +155,11 @@ Definition parse_xsd_duration (s : bytes) : option Z :=
   | _ =>
       let '(neg, r) := match s with b :: r => if Byte.eqb b x2d then (true, r) else (false, s) | [] => (false, []) end in
       match r with
-      | p :: t :: rest =>
-          if Byte.eqb p x50 && Byte.eqb t x54 then
+      | p :: rest =>
+          if Byte.eqb p x50 then
             match rest with
             | [] => None
-            | _ => match xsd_parts 8%nat rest 0 with
+            | _ => match xsd_parts 12%nat false rest 0 with
                    | Some secs => Some ((if neg then -1 else 1) * secs * 1000000000)
                    | None => None
                    end
